@@ -742,7 +742,8 @@ def reloadGlyph (ln : String) (s : State) (gn : String) : State × Option Err :=
       match l.gs with
       | none => (s, some .outsideDomain)
       | some b =>
-        match gsRead s b gn with
+        -- `readGlyph` looks the file name up in the glyph set's contents first (KeyError)
+        match (if gn ∈ b.contents then gsRead s b gn else .error .keyError) with
         | .error e =>
           -- the glyph has been emptied before the read fails
           (setLayer s ln { l with glyphs := AL.set l.glyphs gn { g with value := s.emptyGlyph, dirty := true } }, some e)
